@@ -94,9 +94,20 @@ package utils
 // modelled subset). Only the instantiations named here get a postcondition; all others are havoc.
 //@ uf asn1Count(seq) int
 //@ uf asn1ElemRaw(seq, int) seq
+// SubjectPublicKeyInfo ::= SEQUENCE { algorithm AlgorithmIdentifier { OID, parameters }, subjectPublicKey BIT STRING }
+//@ uf spkiAlgOid(seq) seq
+//@ uf spkiAlgParams(seq) seq
+//@ uf spkiKeyBytes(seq) seq
+// RSAPublicKey ::= SEQUENCE { modulus INTEGER, publicExponent INTEGER }
+//@ uf rsaModN(seq) int
+//@ uf rsaExpE(seq) int
 //@ func ParseAsn1
 //@   trusted
 //@   requires out != nil
 //@   ensures "security-info-set": statictype(out, "*document.SecurityInfoOidSET") ==> (err == nil ==> len(*out) == asn1Count(data)
 //@        && (forall i :: 0 <= i && i < len(*out) ==> (*out)[i].Raw === asn1ElemRaw(data, i)))
+//@   ensures "subject-public-key-info": statictype(out, "*cms.SubjectPublicKeyInfo") ==> (err == nil ==>
+//@        (*out).Algorithm.Algorithm === spkiAlgOid(data) && (*out).SubjectPublicKey.Bytes === spkiKeyBytes(data) && (*out).Algorithm.Parameters.FullBytes === spkiAlgParams(data))
+//@   ensures "rsa-public-key": statictype(out, "*cryptoutils.RsaPublicKey") ==> (err == nil && (*out).N != nil ==>
+//@        (*out).N.val == rsaModN(data) && (*out).E == rsaExpE(data))
 //@   assigns out
